@@ -255,7 +255,7 @@ class Expr:
         if (recv.cls is not None or is_self) and not (attr == 'expected' and self.is_converter_class(recv.cls or self.cur_class)):
             cname = recv.cls or self.cur_class
             fi = self.idx.find_method(cname, attr)
-            if fi is not None and not self.is_property(fi) and not self.is_abstract(fi):
+            if fi is not None and not self.is_property(fi) and not self.is_abstract(fi) and not self.is_stub(fi):
                 return [(VFunc(fi.node, {}, fi.module, fi.qualname, self_sv=recv, cls=cname), st)]
         # class-level constant of a plain (non-dataclass) class read through self, never assigned on instances
         if is_self and recv.cls is None:
@@ -304,6 +304,11 @@ class Expr:
         return False
 
     TOTAL_ATTRS = {'__traceback__', 'tb_next', 'args', '__name__', '__class__', '__dict__', '__mro__', '__func__'}
+
+    def is_stub(self, fi) -> bool:
+        """A placeholder body (`...` / docstring only): the real function is installed at class creation (generated methods)."""
+        body = [b for b in fi.node.body if not (isinstance(b, ast.Expr) and isinstance(b.value, ast.Constant) and isinstance(b.value.value, str))]
+        return len(body) == 1 and isinstance(body[0], ast.Expr) and isinstance(body[0].value, ast.Constant) and body[0].value.value is Ellipsis
 
     def is_abstract(self, fi) -> bool:
         for d in fi.node.decorator_list:
